@@ -134,6 +134,20 @@ def verify_function(c, registry, timeout_ms=10000, max_paths=None):
             out["seconds"] = time.time() - t0
             return out
     max_paths = max_paths or c.max_paths
+    frag_node = None
+    if c.fragment is not None:
+        try:
+            frag_node = c.fragment["select"](fi.node)
+        except Exception as e:
+            frag_node = None
+        if frag_node is None:
+            out["error"] = "anchor drift: fragment %r of %s not found" % (c.fragment["name"], c.key)
+            out["seconds"] = time.time() - t0
+            return out
+        import ast as _ast, hashlib as _h
+        txt = _ast.unparse(frag_node) if not isinstance(frag_node, list) else "\n".join(_ast.unparse(n) for n in frag_node)
+        out["fragment"] = txt[:400]
+        out["sha256"] = _h.sha256(txt.encode()).hexdigest()
     obls = OrderedDict()
     work = [[]]
     notes = set()
@@ -157,23 +171,32 @@ def verify_function(c, registry, timeout_ms=10000, max_paths=None):
                 v = sort.fresh(ctx, name)
                 bound[name] = v
                 ctx.inputs[name] = (sort, v)
+            ghosts = OrderedDict()
+            for name, sort in c.ghosts.items():
+                v = sort.fresh(ctx, name)
+                ghosts[name] = v
+                ctx.inputs[name] = (sort, v)
             old = c.snapshot(bound)
             # inputs are decoded from their entry snapshot (parameters may be mutated)
             for name, sort in c.params.items():
                 ctx.inputs[name] = (sort, _entry_view(getattr(old, name), bound[name]))
             for cname, fn in c.requires:
-                ctx.assume(c.apply(fn, dict(bound, old=old)))
+                ctx.assume(c.apply(fn, dict(bound, old=old, **ghosts)))
             if out["paths"] == 1:
                 if ctx._check() == z3.unsat:
                     out["error"] = "vacuous: requires is unsatisfiable"
                     break
                 covers += 1
             for k in c.known:
-                ctx.known.setdefault(k.obligation, []).append((k.finding_id, c.apply(k.witness, dict(old.__dict__))))
+                ctx.known.setdefault(k.obligation, []).append((k.finding_id, c.apply(k.witness, dict(old.__dict__, **ghosts))))
             try:
-                result = I.call_function(fi, list(bound.values()), loopspecs=c.loops)
+                if c.fragment is not None:
+                    result, post = run_fragment(c, I, fi, frag_node, bound)
+                else:
+                    result = I.call_function(fi, list(bound.values()), loopspecs=c.loops)
+                    post = bound
                 exits["normal"] += 1
-                env = dict(bound, old=old, result=result, ctx=ctx)
+                env = dict(post, old=old, result=result, ctx=ctx, **ghosts)
                 for cname, fn in c.ensures:
                     ctx.oblige("ensures:%s" % cname, c.apply(fn, env))
                 for cls, fn in c.raises_iff.items():
@@ -222,6 +245,15 @@ def verify_function(c, registry, timeout_ms=10000, max_paths=None):
     if not out["error"] and not any(o["name"].startswith(("ensures", "inv-", "frame", "raises")) for o in out["obligations"]):
         out["error"] = "vacuous: no contract obligation was generated"
     return out
+
+
+def run_fragment(c, I, fi, node, bound):
+    from .symexec import Frame
+    fr = Frame(fi, dict(bound), real_module(fi.modname), loopspecs=c.loops)
+    if c.fragment["mode"] == "expr":
+        return I.eval(node, fr), bound
+    I.exec_block(node, fr)
+    return None, fr.env
 
 
 def _entry_view(oldv, cur):
@@ -316,6 +348,21 @@ class LemmaCtx:
             self.ctx.assume(c.apply(fn, dict(bound, old=old, result=result)))
         return result
 
+    def prove_known(self, name, goal, finding_id, outside=None):
+        """A statement recorded as finding `finding_id`: it is known to fail; the
+        part of it that holds is proved by the lemma step named in `outside`.
+        Reports the finding while the unrestricted statement is still refutable
+        (a timeout counts as 'still present': no alarm is raised on it)."""
+        self.ctx.solver.push()
+        self.ctx.solver.add(z3.Not(L.to_z3(goal)))
+        r = self.ctx._check()
+        self.ctx.solver.pop()
+        if r != z3.unsat:
+            self.ctx.results.append(dict(name=name + "[%s]" % finding_id, status="known", backend="z3", seconds=0.0,
+                                         known_ids=[finding_id], model=None))
+        else:
+            self.ctx.results.append(dict(name=name + "[%s]" % finding_id, status="unsat", backend="z3", seconds=0.0))
+
     def prove(self, name, goal, keep=False):
         """Prove `goal`; with keep=True it is available to later steps (hint)."""
         self.ctx.oblige(name, goal, keep=keep)
@@ -360,12 +407,23 @@ class NativeOutcome:
 def native_run(c, conc):
     """Run the real function on concrete inputs given in contract shape."""
     o = NativeOutcome()
-    native = OrderedDict((k, c.params[k].to_native(copy.deepcopy(v))) for k, v in conc.items())
+    native = OrderedDict((k, c.params[k].to_native(copy.deepcopy(v))) for k, v in conc.items() if k in c.params)
     o.old = NS(copy.deepcopy(dict(native)))
     o.args = native
     try:
         if c.native is not None:
             o.result = c.native(native)
+        elif c.fragment is not None:
+            import ast as _ast
+            fi = get_function(c.modname, c.qualname)
+            node = c.fragment["select"](fi.node)
+            g = dict(real_module(c.modname).__dict__)
+            env = dict(native)
+            if c.fragment["mode"] == "expr":
+                o.result = eval(compile(_ast.fix_missing_locations(_ast.Expression(body=node)), "<fragment>", "eval"), g, env)
+            else:
+                exec(compile(_ast.fix_missing_locations(_ast.Module(body=list(node), type_ignores=[])), "<fragment>", "exec"), g, env)
+                o.args = OrderedDict(env)
         else:
             f = resolve_object(c.modname, c.qualname)
             r = f(*native.values())
@@ -407,6 +465,7 @@ def concrete_check(c, conc):
                 bad.append(("raises-only-if:%s" % allowed[0].__name__, "clause not evaluable: %s" % e))
         return bad
     env = dict(o.args, old=o.old, result=o.result, ctx=None)
+    env.update({k: v for k, v in conc.items() if k in c.ghosts})
     for cname, fn in c.ensures:
         try:
             ok = _truth(c.apply(fn, env))
@@ -443,6 +502,7 @@ def crosscheck(c, n, seed):
     while out["evaluations"] < n and tries < n * 20:
         tries += 1
         conc = OrderedDict((k, s.sample(rng)) for k, s in c.params.items())
+        conc.update((k, s.sample(rng)) for k, s in c.ghosts.items())
         if c.samples_hint is not None:
             conc = c.samples_hint(rng, conc) or conc
         try:
@@ -466,7 +526,7 @@ def replay_model(c, model, clause_name):
     if model is None:
         return False, "no model"
     conc = OrderedDict()
-    for k in c.params:
+    for k in list(c.params) + list(c.ghosts):
         v = model.get(k)
         if isinstance(v, str) and v.startswith("<undecodable"):
             return False, v
